@@ -148,7 +148,7 @@ PLAN = {
     "C03": _qplan("hierarchies of depth 2-3, fan-in 2, serial/concurrent inner queues, serial or workloop bottom, retargeted inactive queues",
                   "k<=2 (k<=1 for 3-thread programs)", "k<=3 / k<=2"),
     "C04": _qplan("barrier and non-barrier items (async, sync, barrier block objects, apply) on a custom concurrent queue, default and width-2",
-                  "k<=1", "k<=2 (programs cut by the deadline report their completed bound)"),
+                  "k<=1; k=0 for the three 3-thread programs of q04x (slow-path sync reader pushing its waiter onto the drained queue with a fast-path reader inside)", "k<=2 (programs cut by the deadline report their completed bound); q04x program 0 at k<=1"),
     "C05": _qplan("every synchronous hand-off edge (sync, barrier_sync, async_and_wait, apply) contended by a second thread, over serial/concurrent/global/chained/workloop; plus the semaphore (225 core wait/signal programs), group (wait, notify) and once hand-off edges",
                   "k<=2 on serial hierarchies, k<=1 on the pool", "k<=3 / k<=2"),
     "C13": {
@@ -378,5 +378,9 @@ def _tasks_for(pid, tier):
             core = [v for v, d in sorted(descs("sema").items()) if "{core}" in d]
             extra = (ds("sema", 2 if q else 3, core, jobs=2) + ds("once", 2 if q else 3, [0, 1, 2, 3], jobs=4) +
                      ds("group", 2 if q else 3, [0, 3, 4, 6, 9, 16, 18], jobs=4))
+        if pid == "C04":
+            # q04x: a slow-path sync reader pushing its waiter onto the drained queue while a fast-path reader is inside (seeded C04-e
+            # needs one preemption there: ~10^6 schedules, thorough tier only; the quick tier covers the programs at k=0)
+            extra = ds("q04x", 0, [0, 1, 2], jobs=8) if q else ds("q04x", 1, [0], jobs=16) + ds("q04x", 0, [1, 2], jobs=8)
         return qp(qmap[pid], tier, 2 if q else 3, 1 if q else 2) + extra
     raise KeyError(pid)
